@@ -636,9 +636,10 @@ class Tr:
             if x in self.skip_assign:
                 return []
             v_ = s.value
-            if (isinstance(v_, ast.BinOp) and isinstance(v_.op, ast.Mod) and isinstance(v_.left, ast.Constant)
-                    and isinstance(v_.left.value, str)) or isinstance(v_, ast.JoinedStr) \
-                    or (isinstance(v_, ast.Constant) and isinstance(v_.value, str) and x in ('msg', 'message', 'err_msg')):
+            if x in ('msg', 'message', 'err_msg', 'err_str', 'error_msg') and self.mapped(v_) is None and (
+                    (isinstance(v_, ast.BinOp) and isinstance(v_.op, ast.Mod) and isinstance(v_.left, ast.Constant)
+                     and isinstance(v_.left.value, str)) or isinstance(v_, ast.JoinedStr)
+                    or (isinstance(v_, ast.Constant) and isinstance(v_.value, str))):
                 return []                  # the text of an error message: exceptions are modelled by their type only
             if isinstance(v_, ast.Attribute) and not self.is_declared(x) and x not in self.mutable and self.mapped(v_) is None:
                 root = v_
@@ -1425,6 +1426,7 @@ GROUP_OF = {
     'copy_slice_dest': 'values', 'copy_slice_vals': 'values', 'get_changed_class': 'values',
     'copy_slice': 'subset', 'copy_sample': 'subset', 'get_subset_key': 'subset',
     'reclassify': 'insert', 'insert_dispatch': 'insert', 'change_class': 'insert', 'insert_slice': 'insert', 'insert_non_slice': 'insert', 'insert_sample': 'insert',
+    'cli_out_name': 'cli',
     'group_place': 'group',
     'key_regex_filter': 'filter',
     'check_voxel_order': 'orient',
@@ -1453,6 +1455,7 @@ GROUP_IMPORTS = {
     'orient': ['DcmVerif.Generated.PyPrelude', 'DcmVerif.Model.Orient'],
     'filter': ['DcmVerif.Generated.PyPrelude'],
     'group': ['DcmVerif.Generated.PyPrelude'],
+    'cli': ['DcmVerif.Generated.PyPrelude', 'DcmVerif.Model.Cli'],
 }
 GEN_DIR = os.environ.get('GEN_CODE_DIR', os.path.normpath(os.path.join(HERE, '..', 'lean', 'DcmVerif', 'Generated')))
 
@@ -2210,6 +2213,32 @@ def translate():
              'where `parse_and_group` puts one readable image file (dcmstack.py): under a new exact key, into the first sub-result of '
              'its exact key whose close values all agree (both None, or both present and `np.allclose`), or into a new sub-result',
              prologue=['let mut results := results0'])
+    # ---- dcmstack_cli.main: the name of an output file (group `cli`)
+    cli = ast.parse(open(os.path.join(REPO, 'src', 'dcmstack', 'dcmstack_cli.py')).read())
+    f = find_func(cli, None, 'main')
+    blk = None
+    if f is not None:
+        for node in ast.walk(f):
+            if isinstance(node, ast.For):
+                body = node.body
+                i0 = next((i_ for i_, st in enumerate(body) if isinstance(st, ast.If) and ast.unparse(st.test) == 'out_fn in generated_outs'), None)
+                i1 = next((i_ for i_, st in enumerate(body) if isinstance(st, ast.AugAssign) and ast.unparse(st.target) == 'out_idx'), None)
+                if i0 is not None and i1 is not None and i0 < i1:
+                    blk = body[i0:i1 + 1]
+    if blk is None:
+        missing.append('cli_out_name: statements `if out_fn in generated_outs:` … `out_idx += 1` not found in dcmstack_cli.main')
+    else:
+        tr = Tr({"'%s-%03d' % (out_fn, uniq_idx)": '(Cli.suffixed fmt out_fn uniq_idx)',
+                 '(out_fn, generated_outs, out_idx)': '(out_fn, generated_outs, out_idx)'}, {})
+        tr.pre_declared = {'out_fn', 'generated_outs', 'out_idx'}
+        tr.while_fuel = '(generated_outs).length + 1'
+        tr.stmt_map = {'generated_outs.add(out_fn)': ['generated_outs := out_fn :: generated_outs']}
+        emit('cli_out_name', '(fmt : Nat → String) (generated_outs0 : List String) (out_fn0 : String) (out_idx0 : Nat) : '
+             'Except PyErr (String × List String × Nat)', blk + [ast.parse('return (out_fn, generated_outs, out_idx)').body[0]], tr,
+             'how `dcmstack_cli.main` makes the name of an output file unique within a source directory (dcmstack_cli.py): a name '
+             'already used gets the suffix `-NNN` with the first index from the group counter on that is free; `fmt` renders the '
+             'index (`%03d`), the set `generated_outs` is a list; the `while` loop is bounded by the number of names used so far plus one',
+             prologue=['let mut out_fn := out_fn0', 'let mut generated_outs := generated_outs0', 'let mut out_idx := out_idx0'])
     # ---- check_valid
     f = find_func(dm, 'DcmMetaExtension', 'check_valid')
     if f is None:
